@@ -178,7 +178,7 @@ theorem classifyAssignment_shift (k : Int) (l : List (List Event)) :
   simp only [classifyAssignment, List.length_map, e]
 
 theorem verifyEndsForAssignment_shift (k : Int) (p : Params) (rp : ReadProf) (ms : List (IsoInfo × IsoMatch))
-    (h : ∀ Im ∈ ms, EndsSafe k p rp Im.1) :
+    (h : ∀ Im ∈ ms, EndsSafe k rp Im.1) :
     verifyEndsForAssignment p (shiftReadProf k rp) (ms.map (shPairM k))
       = (verifyEndsForAssignment p rp ms).map (fun r => (r.1.map (shPairM k), r.2)) := by
   unfold verifyEndsForAssignment
@@ -343,7 +343,7 @@ theorem matchConsistent_eq (g : Gene) (p : Params) (rp : ReadProf) :
       | some matched => rfl
 
 theorem consistentTail_shift (k : Int) (g : Gene) (p : Params) (rp : ReadProf) (spliced : Bool) (matched : List IsoInfo)
-    (h : ∀ I ∈ matched, EndsSafe k p rp I) :
+    (h : ∀ I ∈ matched, EndsSafe k rp I) :
     consistentTail (shiftGene k g) p (shiftReadProf k rp) spliced (matched.map (shiftIsoInfo k))
       = (consistentTail g p rp spliced matched).map (Option.map (shiftAssignment k)) := by
   unfold consistentTail
@@ -383,7 +383,7 @@ theorem consistentTail_shift (k : Int) (g : Gene) (p : Params) (rp : ReadProf) (
         simp only [Option.map_some]
         have hfst := checkReadEnds_fst g p rp ms _ ms1 t1 hcr
         have hms_fst : ms.map (·.1) = matched := mapOpt_pair_fst _ matched ms hms
-        have hsafe : ∀ Im ∈ ms1, EndsSafe k p rp Im.1 := by
+        have hsafe : ∀ Im ∈ ms1, EndsSafe k rp Im.1 := by
           intro Im hIm
           apply h
           rw [← hms_fst, ← hfst]
@@ -399,7 +399,7 @@ theorem consistentTail_shift (k : Int) (g : Gene) (p : Params) (rp : ReadProf) (
           · simp only [Option.map_some, shiftAssignment, List.map_map]
             rfl
 
-theorem matchConsistent_shift (k : Int) (g : Gene) (p : Params) (rp : ReadProf) (h : ∀ I ∈ g.isos, EndsSafe k p rp I) :
+theorem matchConsistent_shift (k : Int) (g : Gene) (p : Params) (rp : ReadProf) (h : ∀ I ∈ g.isos, EndsSafe k rp I) :
     matchConsistent (shiftGene k g) p (shiftReadProf k rp)
       = (matchConsistent g p rp).map (Option.map (shiftAssignment k)) := by
   rw [matchConsistent_eq, matchConsistent_eq, consistentIsoforms_shift]
